@@ -220,3 +220,61 @@ func ZZ_C09_IPAndCIDR() {
 	verifAssert(ob == 0, "no rule for TCP to that IP: default outbound")
 	verifCover("ip")
 }
+
+func zzNum(ds []byte) (uint32, bool) {
+	v := uint32(0)
+	for _, d := range ds {
+		v = v*10 + uint32(d-'0')
+		if v > 65535 {
+			return 0, false
+		}
+	}
+	return v, len(ds) > 0
+}
+
+// Protocol/port specifications from the rule TEXT through Compile to Match:
+// "<proto>/<N>" and "<proto>/<N>-<M>" with symbolic digits (so every port
+// number, 65535 and the first invalid one included), for tcp, udp and *: the
+// rule is rejected exactly when a number exceeds 65535 or the range is
+// reversed, and otherwise applies to exactly the ports N..M inclusive of the
+// named protocol(s).
+//
+//verif:harness kind=api unwind=64 bound=numbers:3-or-5-symbolic-digits,shapes{N;N-M},3-protocol-words
+func ZZ_C09_ProtoPortText() {
+	k := []int{3, 5}[verifChoice("digits", 2)]
+	a, b := verifBytes("n", k), verifBytes("m", k)
+	for i := 0; i < k; i++ {
+		verifAssume(a[i] >= '0' && a[i] <= '9' && b[i] >= '0' && b[i] <= '9')
+	}
+	word := []string{"tcp", "udp", "*"}[verifChoice("protoWord", 3)]
+	isRange := verifChoice("range", 2) == 1
+	spec := word + "/" + string(a)
+	if isRange {
+		spec += "-" + string(b)
+	}
+	n, okN := zzNum(a)
+	m, okM := n, okN
+	if isRange {
+		m, okM = zzNum(b)
+	}
+	valid := okN && okM && n <= m
+	rs, err := Compile([]TextRule{{Outbound: "o", Address: "all", ProtoPort: spec}}, map[string]int{"o": 7}, 4, nil)
+	if !valid {
+		verifCover("rejected")
+		verifAssert(err != nil, "a port above 65535 or a reversed range is a configuration error")
+		return
+	}
+	verifAssert(err == nil, "a valid specification compiles")
+	proto := Protocol(verifInt("proto", 1, 2))
+	port := verifUint16("port")
+	ob, _ := rs.Match(HostInfo{Name: "x.example"}, proto, port)
+	protoOK := word == "*" || (word == "tcp") == (proto == ProtocolTCP)
+	// a range starting at 0 means "any port" in the compiled form; the text cannot mean anything else for 0-M
+	inRange := uint32(port) >= n && uint32(port) <= m
+	if n == 0 {
+		verifCover("from-zero")
+		return
+	}
+	verifAssert((ob == 7) == (protoOK && inRange), "the rule applies to exactly the ports N..M (inclusive) of the named protocol")
+	verifCover("matched")
+}
